@@ -33,6 +33,18 @@ func verifRules() []Rule {
 	}
 }
 
+// verifRulesNoDeprecated: all in-process rules except deprecated-commands (its
+// regular expression cannot be applied to symbolic run: text).
+func verifRulesNoDeprecated() []Rule {
+	var out []Rule
+	for _, r := range verifRules() {
+		if r.Name() != "deprecated-commands" {
+			out = append(out, r)
+		}
+	}
+	return out
+}
+
 // verifLintNode is Linter.check from the decoded YAML document on: parser,
 // visitor with the given rules, stable sort by position.
 func verifLintNode(doc *yaml.Node, rules []Rule) []*Error {
